@@ -10,12 +10,16 @@
                              gap: n<k> (Number k ≥ 0, already truncated)  |  s<hex> (String)
                              tok: z | t | f | n<hex lexeme> | s<hex> | a<count> | o<count> (then key s<hex>, value)
                              -> "ok <hex>"  |  "bad"
+    SL <gap> <n> <item>*n <tok>*   the same with a replacer allow-list of n items (s<hex> | n<hex canonical text>)
+    RV <hex text> D <s-key>* Z <s-key>*   JSON.parse with a pure reviver (undefined for D keys, null for Z keys)
+                             -> "ok <dump with h = hole> C <hex keys of the calls joined by '.'>" | "undef C …" | "err"
     Q <hex>                  QuoteJSONString -> "ok <hex>"
 
   dump: z | t | f | n<16 hex: IEEE bits> | s<hex> | [d,d,…] | {<hex key>:d,…}
 -/
 import GojaModel.Base.Proto
 import GojaModel.C19.Model
+import GojaModel.C19.Reviver
 
 namespace GojaModel.C19.Driver
 open GojaModel.Proto GojaModel.C19
@@ -157,11 +161,78 @@ def doStringify (ws : List String) : String :=
     | _, _ => "bad"
   | [] => "bad"
 
+/-- `SL <gap> <n> <item>*n <tok>*` : stringify with a replacer allow-list (items: s<hex> strings, n<hex> numbers given by
+    their canonical text) -/
+def doStringifyPL (ws : List String) : String :=
+  match ws with
+  | g :: n :: rest =>
+    match readGap g, n.toNat? with
+    | some gap, some k =>
+      let items := (rest.take k).filterMap fun t =>
+        match t.toList with
+        | 's' :: h => unhex (String.ofList h)
+        | 'n' :: h => unhex (String.ofList h)
+        | _ => none
+      if items.length != k then "bad" else
+      match readVal (rest.drop k) with
+      | some (v, []) => "ok " ++ String.ofList (hexS (stringifyPL items gap (build NumCanon.id v)))
+      | _ => "bad"
+    | _, _ => "bad"
+  | _ => "bad"
+
+mutual
+partial def rdump : RVal → List Char
+  | .null => ['z']
+  | .bool true => ['t']
+  | .bool false => ['f']
+  | .hole => ['h']
+  | .num l => 'n' :: (toHexW 16 (lexToBits l)).toList
+  | .str s => 's' :: hexS s
+  | .arr xs => '[' :: (rdumpL xs ++ [']'])
+  | .obj ms => '{' :: (rdumpM ms ++ ['}'])
+partial def rdumpL : List RVal → List Char
+  | [] => []
+  | [v] => rdump v
+  | v :: t => rdump v ++ (',' :: rdumpL t)
+partial def rdumpM : List (Str × RVal) → List Char
+  | [] => []
+  | [(k, v)] => hexS k ++ (':' :: rdump v)
+  | (k, v) :: t => hexS k ++ (':' :: rdump v) ++ (',' :: rdumpM t)
+end
+
+/-- `RV <hex text> D <s-key>* Z <s-key>*` : JSON.parse(text, reviver) where the reviver returns undefined for the keys after
+    D, null for the keys after Z and its value otherwise; answer: result dump (h = hole) and the keys of the calls -/
+def doRevive (ws : List String) : String :=
+  match ws with
+  | h :: "D" :: rest =>
+    let ds := rest.takeWhile (· != "Z")
+    let zs := (rest.dropWhile (· != "Z")).drop 1
+    let keysOf (l : List String) : List Str := l.filterMap fun t =>
+      match t.toList with
+      | 's' :: x => unhex (String.ofList x)
+      | _ => none
+    let D := keysOf ds
+    let Z := keysOf zs
+    match unhex h with
+    | none => "bad"
+    | some t =>
+      match parse NumCanon.id t with
+      | none => "err"
+      | some v =>
+        let R : Reviver := fun k x => if D.contains k then none else if Z.contains k then some .null else some x
+        let res := match revive R [] v with
+          | some y => "ok " ++ String.ofList (rdump y)
+          | none => "undef"
+        res ++ " C " ++ ".".intercalate ((calls [] v).map fun k => String.ofList (hexS k))
+  | _ => "bad"
+
 def step (line : String) : String :=
   match words line with
   | ["P"] => doParse ""
   | ["P", h] => doParse h
   | "S" :: rest => doStringify rest
+  | "SL" :: rest => doStringifyPL rest
+  | "RV" :: rest => doRevive rest
   | ["Q", h] => match unhex h with
     | some s => "ok " ++ String.ofList (hexS (quote s))
     | none => "bad"
